@@ -25,6 +25,19 @@ Proof.
 Qed.
 
 (* ---- generic: evaluate ---- *)
+Lemma evaluate_eq_of_sem_gen c c' vals vals' :
+  WF c -> WF c' -> arity_ok c -> arity_ok c' ->
+  length (inputs c) <= length vals -> length (inputs c') <= length vals' ->
+  (forall vs, Forall2 (Eval c' (vec_assignment c' vals')) (outputs c') vs ->
+              Forall2 (Eval c (vec_assignment c vals)) (outputs c) vs) ->
+  evaluate c' vals' = evaluate c vals.
+Proof.
+  intros W W' A A' Hlen Hlen' Hsem.
+  destruct (evaluate_complete c vals W A Hlen) as (vs & Hvs & HF).
+  destruct (evaluate_complete c' vals' W' A' Hlen') as (vs' & Hvs' & HF').
+  rewrite Hvs, Hvs'. f_equal. eapply Forall2_Eval_fun; [apply Hsem; exact HF'|exact HF].
+Qed.
+
 Lemma evaluate_eq_of_sem c c' vals :
   WF c -> WF c' -> arity_ok c -> arity_ok c' ->
   length (inputs c') = length (inputs c) ->
@@ -34,10 +47,26 @@ Lemma evaluate_eq_of_sem c c' vals :
 Proof.
   intros W W' A A' Hi Hsem.
   destruct (le_lt_dec (length (inputs c)) (length vals)) as [Hlen|Hlen].
-  - destruct (evaluate_complete c vals W A Hlen) as (vs & Hvs & HF).
-    destruct (evaluate_complete c' vals W' A') as (vs' & Hvs' & HF'); [rewrite Hi; exact Hlen|].
-    rewrite Hvs, Hvs'. f_equal. eapply Forall2_Eval_fun; [apply Hsem; exact HF'|exact HF].
+  - apply evaluate_eq_of_sem_gen; try assumption. rewrite Hi; exact Hlen.
   - rewrite (evaluate_short c vals Hlen). apply evaluate_short. rewrite Hi. exact Hlen.
+Qed.
+
+(* an entry of the truth table is the component of evaluate on the vector with that index *)
+Lemma get_truth_table_entry c tt : WF c -> arity_ok c -> get_truth_table c = Ok tt ->
+  length tt = length (outputs c) /\
+  forall j x, j < length (outputs c) -> length x = length (inputs c) ->
+    exists row r v, nth_error tt j = Some row /\ evaluate c (map inj x) = Ok r /\
+                    nth_error r j = Some v /\ nth_error row (val_be x) = Some v.
+Proof.
+  intros W A Htt. destruct (get_truth_table_complete c W A) as (tt0 & Htt0 & Hlen & Hent).
+  assert (tt0 = tt) by congruence; subst tt0. split; [exact Hlen|]. intros j x Hj Hx.
+  destruct (nth_error (outputs c) j) as [o|] eqn:Eo; [|apply nth_error_None in Eo; lia].
+  pose proof (abv_complete x) as Hi. rewrite Hx in Hi.
+  destruct (Hent j o (val_be x) x Eo Hi) as (row & v & Hrow & _ & Hv & He).
+  destruct (evaluate_complete c (map inj x) W A) as (r & Hr & HF); [rewrite map_length, Hx; apply le_n|].
+  destruct (Forall2_nth_error_l _ _ _ HF j o Eo) as (v' & Hv' & He').
+  exists row, r, v. repeat split; try assumption.
+  rewrite Hv'. f_equal. eapply Eval_functional; eassumption.
 Qed.
 
 (* ---- generic: get_truth_table ---- *)
